@@ -43,7 +43,7 @@ def write_case(rng, meta, pvp, raw, support, target, tmpdir, plan):
     if os.path.exists(path):
         os.remove(path)
     fo = path if target == 'path' else (io.BytesIO() if target == 'bytesio' else open(path, 'w+b'))
-    w = CPHDWriter1(fo, meta.copy(), check_existence=False)
+    w = CPHDWriter1(fo, meta if plan.get('same_meta_object') else meta.copy(), check_existence=False)
     if plan.get('permute_pvp_fields'):
         pvp = cphdgen.permute_pvp_fields(rng, pvp)
     amp = {k: (v['AmpSF'] if 'AmpSF' in v.dtype.names else None) for k, v in pvp.items()}
@@ -124,6 +124,12 @@ def run(tier):
             except Exception as e:
                 stats['meta_errors'] = stats.get('meta_errors', 0) + 1
                 continue
+            if rng.random() < 0.25:
+                # a metadata object that has been used before (its vector dtype was requested) and is then edited in place
+                cphdgen.make_pvp(meta, rng)
+                cphdgen.relayout_pvp_in_place(meta, rng)
+                plan['same_meta_object'] = True
+                case['relayout_in_place'] = True
             pvp, raw, support = cphdgen.make_pvp(meta, rng), cphdgen.make_raw(meta, rng), cphdgen.make_support(meta, rng)
             try:
                 buf = write_case(rng, meta, pvp, raw, support, target, tmpdir, plan)
